@@ -3592,4 +3592,140 @@ theorem restoreGroups_nodes_other (o : Oracle) (n : Nat) (gs : List ReloadGroup)
     rw [ih _ (fun G' hG' => hp G' (List.mem_cons_of_mem _ hG')), h1 _ _ (hp G List.mem_cons_self)]
 
 
+/-! ## the shared kernel map -/
+
+/-- `x` is a group callback that really writes `key` in `kw` (wired group, core not silenced, init or not dry-run) -/
+def LiveWrite (kw : KWorld) (x : Out) (key : Nat) (v : Nat) : Prop :=
+  ∃ g i a init k, x = Out.group g i a init ∧ kw.wiring g = some k ∧ kw.silenced k.core = false ∧
+    (init = true ∨ k.dryrun = false) ∧ kernelKey k.ob i = key ∧ v = (if a then 1 else 0)
+
+theorem applyOut_frame (kw : KWorld) (x : Out) :
+    (applyOut kw x).wiring = kw.wiring ∧ (applyOut kw x).silenced = kw.silenced ∧ (applyOut kw x).w = kw.w := by
+  cases x with
+  | group g i a init =>
+    simp only [applyOut]
+    split
+    · exact ⟨rfl, rfl, rfl⟩
+    · split <;> exact ⟨rfl, rfl, rfl⟩
+  | trans _ _ _ => exact ⟨rfl, rfl, rfl⟩
+  | escalate _ => exact ⟨rfl, rfl, rfl⟩
+
+theorem applyOut_kmap (kw : KWorld) (x : Out) (key : Nat) :
+    (∃ v, LiveWrite kw x key v ∧ (applyOut kw x).kmap key = v) ∨
+    ((¬ ∃ v, LiveWrite kw x key v) ∧ (applyOut kw x).kmap key = kw.kmap key) := by
+  cases x with
+  | trans n t a =>
+    right; refine ⟨?_, rfl⟩
+    rintro ⟨v, g, i, a', init, k, h, _⟩; cases h
+  | escalate n =>
+    right; refine ⟨?_, rfl⟩
+    rintro ⟨v, g, i, a', init, k, h, _⟩; cases h
+  | group g i a init =>
+    simp only [applyOut]
+    cases hw : kw.wiring g with
+    | none =>
+      right; refine ⟨?_, rfl⟩
+      rintro ⟨v, g', i', a', init', k, h, h2, _⟩
+      cases h; rw [hw] at h2; cases h2
+    | some k =>
+      simp only [kernelCallback, Bool.false_or]
+      by_cases hc : (kw.silenced k.core || (!init && k.dryrun)) = true
+      · simp only [hc, if_true]
+        right; refine ⟨?_, by first | rfl | trivial⟩
+        rintro ⟨v, g', i', a', init', k', h, h2, h3, h4, _⟩
+        cases h; rw [hw] at h2; cases h2
+        simp only [Bool.or_eq_true, Bool.and_eq_true, Bool.not_eq_true'] at hc
+        rcases hc with hc | ⟨hc1, hc2⟩
+        · rw [h3] at hc; cases hc
+        · rcases h4 with h4 | h4
+          · rw [h4] at hc1; cases hc1
+          · rw [h4] at hc2; cases hc2
+      · simp only [hc]
+        have hc' : kw.silenced k.core = false ∧ (init = true ∨ k.dryrun = false) := by
+          simp only [Bool.or_eq_true, Bool.and_eq_true, Bool.not_eq_true', not_or, not_and] at hc
+          refine ⟨by simpa using hc.1, ?_⟩
+          cases hi : init
+          · right; have := hc.2; simp [hi] at this; exact this
+          · left; rfl
+        by_cases hk : kernelKey k.ob i = key
+        · left
+          refine ⟨if a then 1 else 0, ⟨g, i, a, init, k, rfl, hw, hc'.1, hc'.2, hk, rfl⟩, ?_⟩
+          simp [upd, hk]
+        · right
+          refine ⟨?_, by simp [upd, Ne.symm hk]⟩
+          rintro ⟨v, g', i', a', init', k', h, h2, _, _, h5, _⟩
+          cases h; rw [hw] at h2; cases h2; exact hk h5
+
+/-- a key changes only if some live group callback of the step wrote it -/
+theorem applyOuts_unchanged (outs : List Out) : ∀ (kw : KWorld) (key : Nat),
+    (∀ x ∈ outs, ¬ ∃ v, LiveWrite kw x key v) → (applyOuts kw outs).kmap key = kw.kmap key := by
+  induction outs with
+  | nil => intro kw key _; rfl
+  | cons x xs ih =>
+    intro kw key h
+    simp only [applyOuts]
+    obtain ⟨fw, fs, _⟩ := applyOut_frame kw x
+    have hx := h x List.mem_cons_self
+    rcases applyOut_kmap kw x key with ⟨v, hv, _⟩ | ⟨_, he⟩
+    · exact absurd ⟨v, hv⟩ hx
+    · rw [ih (applyOut kw x) key, he]
+      intro y hy hex
+      apply h y (List.mem_cons_of_mem _ hy)
+      obtain ⟨v, g, i, a, init, k, h1, h2, h3, h4⟩ := hex
+      exact ⟨v, g, i, a, init, k, h1, fw ▸ h2, fs ▸ h3, h4⟩
+
+theorem applyOuts_append (a b : List Out) (kw : KWorld) : applyOuts kw (a ++ b) = applyOuts (applyOuts kw a) b := by
+  induction a generalizing kw with
+  | nil => rfl
+  | cons x xs ih => simp only [List.cons_append, applyOuts]; exact ih _
+
+theorem applyOuts_frame (outs : List Out) : ∀ kw : KWorld,
+    (applyOuts kw outs).wiring = kw.wiring ∧ (applyOuts kw outs).silenced = kw.silenced := by
+  induction outs with
+  | nil => intro kw; exact ⟨rfl, rfl⟩
+  | cons x xs ih =>
+    intro kw
+    obtain ⟨a, b⟩ := ih (applyOut kw x)
+    obtain ⟨c, d, _⟩ := applyOut_frame kw x
+    exact ⟨a.trans c, b.trans d⟩
+
+/-- the value of a key after a step is the value of the last live report to it -/
+theorem applyOuts_last (pre post : List Out) (x : Out) (kw : KWorld) (key v : Nat)
+    (hx : LiveWrite kw x key v) (hpost : ∀ y ∈ post, ¬ ∃ v', LiveWrite kw y key v') :
+    (applyOuts kw (pre ++ x :: post)).kmap key = v := by
+  rw [applyOuts_append]
+  simp only [applyOuts]
+  obtain ⟨fw, fs⟩ := applyOuts_frame pre kw
+  have lw : ∀ y v', LiveWrite (applyOuts kw pre) y key v' ↔ LiveWrite kw y key v' := by
+    intro y v'
+    unfold LiveWrite; rw [fw, fs]
+  have hx' := (lw x v).mpr hx
+  rcases applyOut_kmap (applyOuts kw pre) x key with ⟨v2, hv2, he⟩ | ⟨hn, _⟩
+  · obtain ⟨fw2, fs2, _⟩ := applyOut_frame (applyOuts kw pre) x
+    rw [applyOuts_unchanged post _ key, he]
+    · obtain ⟨g, i, a, init, k, h1, _, _, _, _, h6⟩ := hx'
+      obtain ⟨g', i', a', init', k', h1', _, _, _, _, h6'⟩ := hv2
+      rw [h1] at h1'; cases h1'; rw [h6, h6']
+    · intro y hy hex
+      apply hpost y hy
+      obtain ⟨v', g, i, a, init, k, h1, h2, h3, h4⟩ := hex
+      exact ⟨v', g, i, a, init, k, h1, (fw ▸ fw2 ▸ h2), (fs ▸ fs2 ▸ h3), h4⟩
+  · exact absurd ⟨v, hx'⟩ hn
+
+
+
+/-! ## interleavings of concurrent reports -/
+
+theorem rstep_inv (s : RState) (a : RAct) (h : s.set ≠ s.node → s.pending ≠ []) :
+    (rstep true s a).set ≠ (rstep true s a).node → (rstep true s a).pending ≠ [] := by
+  cases a with
+  | store i v => intro _; simp [rstep]
+  | deliver i => intro hne; simp [rstep] at hne
+
+theorem rrun_inv (as : List RAct) : ∀ s : RState, (s.set ≠ s.node → s.pending ≠ []) →
+    ((rrun true s as).set ≠ (rrun true s as).node → (rrun true s as).pending ≠ []) := by
+  induction as with
+  | nil => intro s h; exact h
+  | cons a as ih => intro s h; exact ih _ (rstep_inv s a h)
+
 end DaeVerif.C16
